@@ -27,7 +27,9 @@ static void s_buf(void *const buf, const size_t size)
     size_t i; calls_buf++; byte_requested += size;
     for (i = 0; i < size; i++) { if (byte_pos < byte_n) ((unsigned char *) buf)[i] = byte_script[byte_pos++]; else { ((unsigned char *) buf)[i] = 0x01; byte_over = 1; }   /* beyond the script: a filler every rejection loop accepts, flagged */ }
 }
-static struct randombytes_implementation s_impl = { s_name, s_random, s_stir, NULL, s_buf, NULL };
+static int calls_close;
+static int s_close(void) { calls_close++; return 0; }
+static struct randombytes_implementation s_impl = { s_name, s_random, s_stir, NULL, s_buf, s_close };
 
 /* the OS generator must never be consulted while the custom source is installed (link-time --wrap) */
 ssize_t __real_getrandom(void *, size_t, unsigned);
@@ -225,6 +227,21 @@ static void do_gen(long i)
     if (i < NKEYGEN) { gen g = { KEYGENS[i].name, KEYGENS[i].len, KEYGENS[i].len, r_keygen, 0 }; check_gen(&g, (int) i); return; }
     check_gen(&GENS[i - NKEYGEN], 0);
 }
+/* closing the generator must not replace the installed source: later generation still comes from it */
+static void close_check(void)
+{
+    unsigned char k[32], want[32]; int i;
+    calls_close = 0; n_eval++; n_nontriv++;
+    if (randombytes_close() != 0 || calls_close != 1) vf_fail("randombytes_close/custom", "installed source's close() called %d times", calls_close);
+    for (i = 0; i < 32; i++) { byte_script[i] = (unsigned char) (0x40 + i); want[i] = (unsigned char) (0x40 + i); }
+    byte_n = 32; byte_pos = 0; byte_requested = 0; os_rng_calls = 0; calls_buf = 0;
+    crypto_secretbox_keygen(k);
+    if (os_rng_calls || calls_buf != 1 || memcmp(k, want, 32) || strcmp(randombytes_implementation_name(), "verif-script"))
+        vf_fail("randombytes_close/then-keygen", "after randombytes_close() a key was not taken from the installed source (source buf calls %d, OS generator calls %lu, name %s)", calls_buf, os_rng_calls, randombytes_implementation_name());
+    draw_script[0] = 7; draw_n = 1; draw_pos = 0; draw_over = 0;
+    if (randombytes_uniform(10) != 7 || draw_pos != 1) vf_fail("randombytes_close/then-uniform", "bounded draw after close did not come from the installed source");
+}
+
 /* randombytes_random / uniform draw exactly one 32-bit value each from the source */
 static void draws_check(void)
 {
@@ -260,7 +277,7 @@ int main(void)
     vf_parallel(16, 0, nub, uniform_bound, fin);
     vf_parallel(16, 0, vf_tier_thorough() ? 2305 : 1101, det_len, fin);
     vf_parallel(16, 0, NKEYGEN + ngens, do_gen, fin);
-    draws_check(); det_limit(); fin();
+    draws_check(); det_limit(); close_check(); fin();
     vf_sample("randombytes_uniform(10): scripts over {0,1,4,5,6,7,9,10,11,2^31,2^32-2,2^32-1} with <= 3 rejected draws; e.g. draws (5, 6) -> 5 rejected (< 2^32 mod 10 = 6), result 6 after 2 draws");
     vf_sample("randombytes_uniform(4294967295): draws (0, 1) -> min = 1: 0 rejected, 1 accepted -> 1");
     vf_sample("crypto_core_ed25519_scalar_random: served candidates L, 0, ff..ff, (L-1 | top bits) -> output L-1 after 128 bytes");
